@@ -343,6 +343,15 @@ func (fr *frame) setResult(x ssa.Value, rs []Val) {
 }
 
 func (fr *frame) execCall(x *ssa.Call, st *State) {
+	if isPkgInit(fr.fn) {
+		if callee := x.Call.StaticCallee(); isInitCallee(callee) {
+			// Inside the package initialiser: initialisers of imported packages cannot reach this
+			// package's unexported variables, and this package's own init functions are shown not to
+			// write the variables the contract speaks about (checkInitOnlyGlobals). Skipped.
+			fr.c.assumed["package initialiser: calls to other initialisers ("+callee.String()+" ...) are skipped; they cannot write the variables named in the contract (imported packages by visibility, init functions by a scan of the package for writes)"] = true
+			return
+		}
+	}
 	rs := fr.doCall(&x.Call, st, x.Pos(), x)
 	fr.setResult(x, rs)
 }
